@@ -14,6 +14,7 @@ Groups (a property module lists the ones it relies on in `JIT_TWIN`):
             diagnostics.smallest_angle
   velocity  the six flow callables for all axis assignments
   voigt     minerals.voigt_averages and diagnostics.elasticity_components
+  diag      symmetry_pgr, bingham_average, coaxial_index on 7 ... 9001 (thorough 65537) grains, finite_strain
   update    whole texture-update histories (Mineral.update_orientations / update_all through LSODA)
   large_update  (compiled only, too slow interpreted) updates of aggregates of 8200 (thorough: up to 70000) grains with the
             clauses of C01 / C05 / C06 evaluated in the worker
@@ -29,7 +30,7 @@ import numpy as np
 
 from . import common as C
 
-TOL = {"tensors": 1e-9, "utils": 1e-9, "velocity": 1e-9, "voigt": 1e-8, "update": 1e-6}
+TOL = {"diag": 1e-9, "tensors": 1e-9, "utils": 1e-9, "velocity": 1e-9, "voigt": 1e-8, "update": 1e-6}
 
 
 def _flat(x):
@@ -117,6 +118,13 @@ def _b_utils(rng, thorough):
         Q1 = Rotation.random(N * a, random_state=int(rng.integers(2**31))).as_quat().reshape(N, a, 4)
         Q2 = Rotation.random(N * b, random_state=int(rng.integers(2**31))).as_quat().reshape(N, b, 4)
         out.append(("misorientation_angles", {"q1": Q1.tolist(), "q2": Q2.tolist()}, _flat(G.misorientation_angles(Q1, Q2))))
+        # identical float32 quaternions (single-orientation textures): |q.q| rounds above 1 for about one orientation in twelve
+        Qs = np.repeat(Rotation.random(N, random_state=int(rng.integers(2**31))).as_quat().astype(np.float32)[:, None, :], 3, axis=1)
+        out.append(("misorientation_angles[float32, identical quaternions]", {"q": Qs.tolist()}, _flat(G.misorientation_angles(Qs, Qs))))
+        ns = int(rng.integers(3, 9))
+        one = np.repeat(Rotation.random(random_state=int(rng.integers(2**31))).as_matrix()[None], ns, axis=0)
+        out.append(("misorientation_index[single orientation]", {"n": ns, "A0": one[0].tolist()},
+                    _flat(D.misorientation_index(one, G.LatticeSystem.orthorhombic))))
         u, w, p = (x / np.linalg.norm(x) for x in rng.normal(size=(3, 3)))
         out.append(("smallest_angle", {"v": u.tolist(), "axis": w.tolist()}, _flat(D.smallest_angle(u, w))))
         out.append(("smallest_angle[plane]", {"v": u.tolist(), "axis": w.tolist(), "plane": p.tolist()}, _flat(D.smallest_angle(u, w, p))))
@@ -239,7 +247,29 @@ def _p_large_update(prop, rng, thorough):
 
 PREDICATES = {"large_update": _p_large_update}
 
-BATTERIES = {"tensors": _b_tensors, "utils": _b_utils, "velocity": _b_velocity, "voigt": _b_voigt, "update": _b_update}
+def _b_diag(rng, thorough):
+    """texture diagnostics on small and LARGE orientation sets (block boundaries of any compiled summation kernel)"""
+    from pydrex import diagnostics as D
+
+    out = []
+    for n in ([7, 4096, 4097, 9001] if not thorough else [1, 7, 1024, 4095, 4096, 4097, 8193, 10000, 65537]):
+        A = _rot(rng, n)
+        if n % 2:
+            A[: n // 2] = _rot(rng, 1)[0]          # half the grains share one orientation: a clear point maximum
+        inp = {"n": n, "note": "orientations drawn from the battery PRNG"}
+        for ax in ("a", "b", "c"):
+            out.append((f"symmetry_pgr[{ax}]", inp, _flat(D.symmetry_pgr(A, axis=ax))))
+            out.append((f"bingham_average[{ax}]", inp, _flat(np.abs(D.bingham_average(A, axis=ax)))))
+        out.append(("coaxial_index", inp, _flat(D.coaxial_index(A))))
+        out.append(("symmetry_pgr[permuted grains]", inp, _flat(D.symmetry_pgr(A[rng.permutation(n)], axis="a"))))
+    for k in range(4):
+        F = np.eye(3) + rng.normal(size=(3, 3)) * 0.5
+        s_, v_ = D.finite_strain(F)
+        out.append(("finite_strain", {"F": F.tolist()}, _flat([s_, np.abs(v_)])))
+    return out
+
+
+BATTERIES = {"diag": _b_diag, "tensors": _b_tensors, "utils": _b_utils, "velocity": _b_velocity, "voigt": _b_voigt, "update": _b_update}
 
 
 def battery(group, seed, thorough):
